@@ -12,6 +12,7 @@ import (
 	"verif/harness/gen"
 	"verif/harness/ir"
 	"verif/harness/layout"
+	"verif/harness/reflex"
 )
 
 // C15 — the pretty printer keeps statement-level comments; compact output has none.
@@ -37,6 +38,51 @@ type c15Case struct {
 	Plain    string        `json:"plain"` // same program and layout, no comments
 	Comments []c15Comment  `json:"comments"`
 	Bounds   []c15Boundary `json:"bounds"`
+	// Empty: the case is about comments without text (`//` alone or followed by
+	// white space only): Src holds the program, no markers; only their number is checked.
+	Empty bool `json:"empty,omitempty"`
+}
+
+// countComments counts `//` comment starts outside string literals.
+func countComments(s string) int {
+	n := 0
+	b := []byte(s)
+	for i := 0; i < len(b); {
+		switch {
+		case b[i] == '"' || b[i] == '\'' || b[i] == '`':
+			i, _ = reflex.StringEnd(b, i)
+		case b[i] == '/' && i+1 < len(b) && b[i+1] == '/':
+			n++
+			for i < len(b) && b[i] != '\n' {
+				i++
+			}
+		default:
+			i++
+		}
+	}
+	return n
+}
+
+// c15Empty: every `//` comment - also one without text - appears exactly once.
+func c15Empty(c c15Case, rec *evid.Recorder) *Fail {
+	rec.Eval()
+	p, errs, err := parseX(c.Src, Mode{})
+	if err != nil || len(errs) > 0 {
+		return failf("program with empty comments rejected: %v\nsrc %q", errs, c.Src)
+	}
+	want := countComments(c.Src)
+	for _, cfg := range []Cfg{{Pretty: true, Indent: 99}, {Pretty: true, Indent: -1, NoSemi: true}} {
+		out := compile(p, cfg).Code
+		if got := countComments(out); got != want {
+			return failf("[%s] the source has %d comments (some without text), the formatted output %d\nsrc %q\nformatted %q", cfg, want, got, c.Src, out).tag("empty-comment-dropped")
+		}
+	}
+	if compact := compile(p, Cfg{}).Code; countComments(compact) != 0 {
+		return failf("compact output contains a comment\ncompact %q", compact)
+	}
+	rec.Class("empty-comments")
+	rec.NonTrivial("empty|" + c.Src)
+	return nil
 }
 
 var c15Contents = []string{"", " plain words", " let x = 1;", " }", " if (", " { a: 1 }", " 'single' \"double\" `tick`", " // nested", " /* block */", "trailing   ", "   leading", " ünï 中", " ; ) ] ,", " return", "\ttab", " \\ backslash \\n", " function f() {"}
@@ -45,6 +91,9 @@ var c15Contents = []string{"", " plain words", " let x = 1;", " }", " if (", " {
 var markerRE = regexp.MustCompile(`//[^\n#]*#(\d+)#[^\n]*`)
 
 func c15Check(c c15Case, rec *evid.Recorder) *Fail {
+	if c.Empty {
+		return c15Empty(c, rec)
+	}
 	rec.Eval()
 	p, errs, err := parseX(c.Src, Mode{})
 	if err != nil || len(errs) > 0 {
@@ -209,6 +258,33 @@ func markerInText(s string) bool { return regexp.MustCompile(`#\d+#`).MatchStrin
 
 func c15Gen(t *rapid.T, rec *evid.Recorder) c15Case {
 	r := gen.R{T: t}
+	if r.Intn(12, "emptycomments") == 0 {
+		// comments without text at statement boundaries
+		g := &gen.Syn{R: r, MaxDepth: 1, StmtDepth: 1 + r.Intn(2, "sdepth"), NoScale: true}
+		toks := layout.Tokens(r, g.Program(3), layout.Options{})
+		n := 0
+		src := layout.Render(layout.Fixed{}, toks, layout.Options{GapOverride: func(ch layout.Chooser, prev, next *layout.Tok) (string, bool) {
+			boundary := (next.StmtStart && next.ListMember) || (next.Kind == layout.Punct && next.Role == layout.BlockClose) || next.Kind == layout.EOF
+			if !boundary || prev == nil {
+				return "", false
+			}
+			switch r.Intn(4, "emptykind") {
+			case 0:
+				n++
+				return " //" + []string{"", " ", "  "}[r.Intn(3, "pad")] + "\n", true
+			case 1:
+				n++
+				return "\n//\n", true
+			case 2:
+				n += 2
+				return "\n// text\n//\n", true
+			}
+			return "\n", true
+		}})
+		if n > 0 {
+			return c15Case{Src: src, Empty: true}
+		}
+	}
 	g := &gen.Syn{R: r, MaxDepth: 1 + r.Intn(2, "depth"), StmtDepth: 1 + r.Intn(3, "sdepth")}
 	tree := g.Program(5)
 	toks := layout.Tokens(r, tree, layout.Options{})
